@@ -67,6 +67,18 @@ class Ctx:
             self._models[k] = m
         return self._models[k]
 
+    def models_orphan(self, cfg):
+        """same models, but the node the index returns for a node's own key is not identified with that node (see Models.identify_own_key)"""
+        k = cfg + ":orphan"
+        if k not in self._models:
+            base = self.models(cfg)
+            m = absint.Models()
+            m.resident_bound_fields = base.resident_bound_fields
+            m.cap_alias = base.cap_alias
+            m.identify_own_key = False
+            self._models[k] = m
+        return self._models[k]
+
     def paths(self, cfg, fpath, policy=None, models=None, tag="full"):
         k = (cfg, fpath, tag)
         if k not in self._paths:
